@@ -143,6 +143,10 @@ class Renderer:
         if any(m in everything for m in self.sparam_texts):
             # a string argument (words separated by spaces) will be substituted here
             ss = [s for s in ss if s != ' ']
+        if not any(bare_comma(a) for a in args) and all(paren_ok(a) for a in args):
+            # the comma as separator between alternative delimiters ('/,a,(b,c),/'): commas between parentheses are
+            # retained when a comma-separated sequence is split (documented under "String parameters")
+            ss = ss + [','] * (4 if ',' in everything else 1)
         if ds and ss:
             opts += ['alt'] * 2
         if not opts:
